@@ -92,25 +92,26 @@ type pathState struct {
 
 // Stats are aggregated over all workers.
 type Stats struct {
-	Paths        int64
-	Decisions    int64
-	Queries      int64
-	SolverNs     int64
-	AssertsTotal int64 // Assert calls executed
-	Discharged   int64 // of which proved for all inputs on their path (solver unsat or concrete true)
-	Inconclusive int64
-	Unsupported  int64
-	FuelOut      int64
-	Instr        int64
-	MaxDepth     int
-	Reached      map[string]int64
-	AssertLabels map[string]int64
-	KnownSeen    map[string]int64
-	InconclMsgs  map[string]int64
-	UnsuppMsgs   map[string]int64
-	Funcs        map[string]bool // functions executed with a symbolic operand
-	Samples      []string
-	Observed     []string
+	Paths         int64
+	Decisions     int64
+	Queries       int64
+	SolverNs      int64
+	AssertsTotal  int64 // Assert calls executed
+	Discharged    int64 // of which proved for all inputs on their path (solver unsat or concrete true)
+	Inconclusive  int64
+	SolverRetries int64 // queries answered "unknown" that were asked again on a rebuilt solver state
+	Unsupported   int64
+	FuelOut       int64
+	Instr         int64
+	MaxDepth      int
+	Reached       map[string]int64
+	AssertLabels  map[string]int64
+	KnownSeen     map[string]int64
+	InconclMsgs   map[string]int64
+	UnsuppMsgs    map[string]int64
+	Funcs         map[string]bool // functions executed with a symbolic operand
+	Samples       []string
+	Observed      []string
 }
 
 func newStats() *Stats {
@@ -264,6 +265,14 @@ func (i *interpreter) query(extra *sym.Term) (sym.Result, sym.Model) {
 	}
 	i.flushPC()
 	r, m := i.solver.CheckWith(extra, i.path.vars)
+	// "unknown" is usually the per-query time limit hit on a busy machine: ask again (twice at most) on a
+	// solver state rebuilt from scratch; the query is the same, so the answer is as sound as the first would be
+	for retry := 0; r == sym.Unknown && retry < 2; retry++ {
+		i.stats.SolverRetries++
+		i.path.solverFresh = false
+		i.flushPC()
+		r, m = i.solver.CheckWith(extra, i.path.vars)
+	}
 	if r == sym.Sat && m != nil {
 		// validate the model against PC ∧ extra with our own evaluator (guards the
 		// printer/evaluator pair; a mismatch is an engine defect, reported loudly)
